@@ -249,6 +249,17 @@ package slip
 //@   on-call Unlock other-lambdas-kept: forall n :: n != name ==> (has(obj.lambdas, n) == old(has(obj.lambdas, n)) && obj.lambdas[n] == old(obj.lambdas[n]))
 //@   on-call Unlock other-funcs-kept: forall n :: n != name ==> (has(obj.funcs, n) == old(has(obj.funcs, n)) && obj.funcs[n] == old(obj.funcs[n]))
 
+// C08: the stand-in built for a call to a function that is not defined yet
+// carries the arguments of the call and runs the lambda that a later defun
+// patches in place (registered under the lower-case name defun uses).
+//@ func slip.CompileList
+//@   property C08
+//@   on-map-update lambdas stand-in-under-the-name-defun-uses: $key == tolower(ta)
+//@   on-map-update funcs stand-in-under-the-name-defun-uses: $key == tolower(ta)
+//@ func slip.CompileList$1
+//@   property C08
+//@   ensures keeps-the-arguments: is(result0, ptr(Dynamic)) && as(result0, ptr(Dynamic)).Function.Args == args
+
 // C08: pre-compilation visits every top-level form: definitions that follow an
 // atom, a call or another definition are still hoisted (both passes run to
 // the end of the code).
